@@ -3,6 +3,6 @@ CHECKS = [
           technique="property-based testing (rapid): round trip through the live proxy handler between a raw HTTP client and a scripted fake Honeycomb API, compared on both sides",
           quick=dict(checks=1200, budget_s=50),
           thorough=dict(checks=5000, shards=16, budget_s=420),
-          level_text="Generated requests (7 methods, 20 unhandled path templates with encoded segments, raw queries, multi-valued headers, client X-Forwarded-For lines, bodies up to 64 KiB, chunked) and scripted upstream answers (status incl. 3xx, multi-valued headers, binary and gzip bodies) through a fresh Router per case; both sides compared value by value. Exploration: does not prove absence.",
+          level_text="Generated requests (7 methods, 20 unhandled path templates with encoded segments, raw queries, multi-valued headers, client X-Forwarded-For lines, bodies up to 64 KiB and rarely ~5 MB, chunked, gzip/zstd-encoded or merely labelled so) and scripted upstream answers (status incl. 3xx, multi-valued headers, binary and gzip bodies) through a fresh Router per case; both sides compared value by value. Exploration: does not prove absence.",
           level_note="Header equality uses HTTP list semantics; transport artefacts (default User-Agent, Accept-Encoding, Date, CORS header) are allowed additions; hop-by-hop headers, Set-Cookie and unclean paths are outside the generator; lateness is inconclusive."),
 ]
